@@ -117,6 +117,20 @@ def runPoissonCase (line : String) : String :=
         let margins := (ratios.take (min n (maxIter - 1))).map (relMargin · (1 - t))
         toString n ++ ":" ++ minMargin margins ++ ":" ++ toString nspec))
     | _, _ => "bad-args"
+  | ["poissoni", mass, n, z, lf] =>
+    match parseRat? mass, n.toNat?, z.toInt?, parseRat? lf with
+    | some m, some n, some z, some lf => "ok * " ++ showPeaks (poisson m n z lf ns pr)
+    | _, _, _, _ => "bad-args"
+  | ["poissonni", mass, lf, mi, ts] =>
+    match parseRat? mass, parseRat? lf, mi.toNat?, (ts.splitOn ",").mapM parseRat? with
+    | some m, some lf, some maxIter, some ts =>
+      let lam := m / lf
+      let ratios := poissonRatios lam (maxIter - 1) 1 ⟨1, 1⟩ 1
+      " ".intercalate (ts.map (fun t =>
+        let n := poissonN m lf t maxIter
+        let margins := (ratios.take (min n (maxIter - 1))).map (relMargin · (1 - t))
+        toString n ++ ":" ++ minMargin margins ++ ":" ++ toString n))
+    | _, _, _, _ => "bad-args"
   | ["mz", m, z, c] =>
     match parseRat? m, z.toInt?, parseRat? c with
     | some m, some z, some c =>
